@@ -20,6 +20,70 @@ var (
 	twinsSp, twinsEx []twin
 )
 
+// indexTwins: pairs of different voxels of one zoom pair whose INDICES collide under common ways of
+// packing (x, y, f) into one word: the multiply-xor spatial hash with the customary primes, polynomial
+// rolling hashes with small multipliers, each in 64 and in 32 bits.
+var (
+	idxOnce   sync.Once
+	idxTwins  []twin
+	idxTwinsZ = int64(23)
+)
+
+func indexTwins() []twin {
+	idxOnce.Do(func() {
+		fs := []func(x, y, f int64) uint64{
+			func(x, y, f int64) uint64 { return uint64(x*73856093 ^ y*19349663 ^ f*83492791) },
+			func(x, y, f int64) uint64 { return uint64(uint32(x*73856093 ^ y*19349663 ^ f*83492791)) },
+			func(x, y, f int64) uint64 { return uint64((x*31+y)*31 + f) },
+			func(x, y, f int64) uint64 { return uint64((x*37+y)*37 + f) },
+			func(x, y, f int64) uint64 { return uint64((f*31+y)*31 + x) },
+			func(x, y, f int64) uint64 { return uint64(uint32((x*1000003+y)*1000003 + f)) },
+			func(x, y, f int64) uint64 { return uint64(uint32(x*2654435761) ^ uint32(y*2246822519) ^ uint32(f*3266489917)) },
+		}
+		x0, y0 := int64(7451100), int64(3303200)
+		seen := make([]map[uint64]ID, len(fs))
+		found := make([]int, len(fs))
+		for i := range seen {
+			seen[i] = map[uint64]ID{}
+		}
+		for dx := int64(0); dx < 110; dx++ {
+			for dy := int64(0); dy < 110; dy++ {
+				for f := int64(0); f < 44; f++ {
+					id := ID{H: idxTwinsZ, X: x0 + dx, Y: y0 + dy, V: idxTwinsZ, F: f}
+					for i, h := range fs {
+						if found[i] >= 8 {
+							continue
+						}
+						k := h(id.X, id.Y, id.F)
+						if o, ok := seen[i][k]; ok {
+							idxTwins = append(idxTwins, twin{o, id})
+							found[i]++
+						} else {
+							seen[i][k] = id
+						}
+					}
+				}
+			}
+		}
+		if len(idxTwins) == 0 {
+			panic("index twin search found nothing")
+		}
+	})
+	return idxTwins
+}
+
+func children(s ID) []ID {
+	var out []ID
+	for x := int64(0); x < 2; x++ {
+		for y := int64(0); y < 2; y++ {
+			for f := int64(0); f < 2; f++ {
+				out = append(out, ID{s.H + 1, 2*s.X + x, 2*s.Y + y, s.V + 1, 2*s.F + f})
+			}
+		}
+	}
+	return out
+}
+
 func hashTwins() (sp, ext []twin) {
 	twinOnce.Do(func() {
 		hs := []func(string) uint32{
